@@ -71,7 +71,9 @@ Definition operand_comments (op : operand) : list text :=
   match op_mode op with
   | Indirect => opt_comments (fun cr : ltext * ltext => lt_comments (fst cr) ++ lt_comments (snd cr)) (op_suffix op) ++
                 opt_comments lt_comments (op_rchar op)
-  | _ => opt_comments lt_comments (op_rchar op) ++
+  | OuterIndirect => opt_comments lt_comments (op_rchar op) ++
+         opt_comments (fun cr : ltext * ltext => lt_comments (fst cr) ++ lt_comments (snd cr)) (op_suffix op)
+  | _ => (* only the two indirect forms have a closing `)` *)
          opt_comments (fun cr : ltext * ltext => lt_comments (fst cr) ++ lt_comments (snd cr)) (op_suffix op)
   end.
 
